@@ -248,7 +248,7 @@ Definition at_most_once_oracle (H : Z) (writes : list (N * batch)) (files : list
 
 Inductive ccase7 :=
 | CTrace (H thr : Z) (cfg : config) (ops : list op7) (final : N) (obs : obs7)
-| COrder (regs : list reg) (obs : list string).
+| COrder (regs : list reg) (obs : list string) (events : list (bool * string)).   (* events: (true, n) = n starts, (false, n) = n has returned *)
 
 Definition writes_of_ops7 (ops : list op7) : list (N * batch) :=
   flat_map (fun o => match o with O7Write k b => [(k, b)] | _ => [] end) ops.
@@ -275,21 +275,42 @@ Fixpoint string_list_eqb (a b : list string) : bool :=
   | _, _ => false
   end.
 
+Fixpoint ev_index (start : bool) (n : string) (l : list (bool * string)) (i : nat) : option nat :=
+  match l with
+  | [] => None
+  | (b, m) :: r => if Bool.eqb b start && String.eqb m n then Some i else ev_index start n r (S i)
+  end.
+
+Fixpoint events_eqb (a b : list (bool * string)) : bool :=
+  match a, b with
+  | [], [] => true
+  | (x, n) :: a', (y, m) :: b' => Bool.eqb x y && String.eqb n m && events_eqb a' b'
+  | _, _ => false
+  end.
+
+(* the model coordinator runs one hook / Close at a time *)
+Definition sequential_events (order : list string) : list (bool * string) :=
+  flat_map (fun n => [(true, n); (false, n)]) order.
+
 Definition case7_agrees (c : ccase7) : bool :=
   match c with
   | CTrace H thr cfg ops _ obs => trace_agrees H thr cfg ops obs
-  | COrder regs obs => string_list_eqb (map r_name (shutdown_order regs)) obs
+  | COrder regs obs events =>
+      string_list_eqb (map r_name (shutdown_order regs)) obs &&
+      events_eqb (sequential_events (map r_name (shutdown_order regs))) events
+  end.
+
+(* the ordering property itself, on what the REAL coordinator did: the WAL purge must not START
+   before the buffer's Close has RETURNED (whatever the implementation: sorted lists, bands, ...) *)
+Definition purge_after_close_events (events : list (bool * string)) : bool :=
+  match ev_index true "wal-purge" events 0, ev_index false "arrow-buffer" events 0 with
+  | Some ps, Some ce => Nat.ltb ce ps
+  | Some _, None => negb (existsb (fun e => String.eqb (snd e) "arrow-buffer") events)
+  | None, _ => true
   end.
 
 Definition case7_oracle (c : ccase7) : bool :=
   match c with
   | CTrace H _ _ ops final obs => trace_oracle H ops final obs
-  | COrder regs obs =>
-      (* the WAL purge must not precede the buffer's final flush *)
-      negb (existsb (String.eqb "wal-purge") obs) ||
-      match index_of "arrow-buffer" (map (fun n => {| r_name := n; r_kind := RComp; r_prio := 0 |}) obs) 0,
-            index_of "wal-purge" (map (fun n => {| r_name := n; r_kind := RComp; r_prio := 0 |}) obs) 0 with
-      | Some i, Some j => Nat.ltb i j
-      | _, _ => true
-      end
+  | COrder _ _ events => purge_after_close_events events
   end.
